@@ -70,21 +70,72 @@ def _run_task(target, kw, name, timeout):
             signal.alarm(0)
 
 
+def _child(conn, overlay, target, kw, name, timeout, env=None):
+    try:
+        os.environ.update(env or {})
+        _init_worker(overlay)
+        out = _run_task(target, kw, name, timeout)
+    except BaseException:
+        out = [R(name, 'proof', 'error', detail=traceback.format_exc()[-3000:])]
+    try:
+        conn.send(out)
+    except Exception:
+        try:
+            conn.send([R(name, 'proof', 'error', detail='result could not be sent back: ' + traceback.format_exc()[-1500:])])
+        except Exception:
+            pass
+    finally:
+        conn.close()
+
+
+HARD_GRACE = 45      # seconds past the task's own (alarm) timeout after which the worker process is killed
+
+
 def run_tasks(tasks, overlay=None, jobs=None):
+    """One forked process per task, at most `jobs` at a time.  The task's wall-clock timeout is enforced twice: by an alarm inside the worker
+    (python level) and, because a solver call inside C code cannot be interrupted by a python signal handler, by the parent killing the worker
+    HARD_GRACE seconds later; a killed task is retried once with the solver order reversed (external processes, which can be killed on time,
+    before the in-process z3).  A task killed twice yields one `undecided` result - never a violation."""
     jobs = jobs or common.NCPU
     results = []
     if not tasks:
         return results
     ctx = mp.get_context('fork')
-    with ProcessPoolExecutor(max_workers=min(jobs, len(tasks)), mp_context=ctx,
-                             initializer=_init_worker, initargs=(overlay,)) as ex:
-        futs = {ex.submit(_run_task, t.target, t.kw, t.name, t.timeout): t for t in tasks}
-        for f in as_completed(futs):
-            t = futs[f]
+    pending = list(tasks)
+    running = {}          # conn -> (proc, task, start)
+    from multiprocessing.connection import wait as mpwait
+    while pending or running:
+        while pending and len(running) < jobs:
+            t = pending.pop(0)
+            rc, wc = ctx.Pipe(duplex=False)
+            pr = ctx.Process(target=_child, args=(wc, overlay, t.target, t.kw, t.name, t.timeout, getattr(t, 'env', None)), daemon=True)
+            pr.start()
+            wc.close()
+            running[rc] = (pr, t, time.time())
+        ready = mpwait(list(running), timeout=1.0)
+        for c in ready:
+            pr, t, st = running.pop(c)
             try:
-                results.extend(f.result())
-            except Exception as e:   # worker died
-                results.append(R(t.name, 'proof', 'error', detail='worker died: %r' % (e,)))
+                results.extend(c.recv())
+            except (EOFError, OSError) as e:       # worker died without an answer
+                results.append(R(t.name, 'proof', 'error', detail='worker died: %r (exit code %r)' % (e, pr.exitcode)))
+            c.close()
+            pr.join(5)
+        now = time.time()
+        for c, (pr, t, st) in list(running.items()):
+            if t.timeout and now - st > t.timeout + HARD_GRACE:
+                pr.kill()
+                pr.join(5)
+                running.pop(c)
+                c.close()
+                if not getattr(t, 'env', None):
+                    # second and last attempt: external solver processes first (they can be killed on time), in-process z3 only after them
+                    t.env = {'VERIF_SOLVER_ORDER': 'cli-first'}
+                    sys.stderr.write('note: %s killed after %ds (a solver call that does not return); retrying once with the external solvers first\n' % (t.name, int(now - st)))
+                    pending.append(t)
+                    continue
+                results.append(R(t.name, 'proof', 'undecided', detail='task killed %ds after its wall-clock timeout of %ss, twice (a solver call that does not return)'
+                                 % (HARD_GRACE, t.timeout), seconds=now - st))
     results.sort(key=lambda r: r['id'])
     return results
 
